@@ -1087,7 +1087,9 @@ class _Identifiers:
             node.accept_visitor(self)
 
         illegal_names = self.compiler.reserved_names.intersection(
-            self.locally_declared
+            self.locally_declared.union(self.argument_declared)
+            .union(self.closuredefs)
+            .union(self.topleveldefs)
         )
         if illegal_names:
             raise exceptions.NameConflictError(
